@@ -136,7 +136,7 @@ class Lysosome:
 
         # Waste queue
         self._queue: list[Waste] = []
-        self._lock = threading.Lock()
+        self._lock = threading.RLock()
 
         # Custom digesters
         self._digesters: dict[WasteType, Callable[[Waste], dict]] = {
